@@ -587,3 +587,6 @@ def run(repo: Repo, rep: Report, tier: str) -> None:
     from .c13 import resolve_rule
 
     resolve_rule(repo, rep, "C20.R16")
+    from .c13 import parser_fold_rule
+
+    parser_fold_rule(repo, rep, "C20.R17")
